@@ -108,4 +108,77 @@ theorem unwrap_unknown_refused (base : Fits) (outer : List Wrapper) :
   simp only [unwrap, List.reverse_append, List.reverse_cons, List.reverse_nil, List.nil_append,
     List.cons_append, List.foldlM_cons, bind, Except.bind]
 
+def nKept (d : List Bool) : Nat := (d.filter (· == false)).length
+
+/-- **Dropped-axis bookkeeping of a resampling wrapper.**  A resampling wrapper that sits above a
+slicing wrapper has one factor / offset per *kept* pixel axis.  Expanding them with the neutral
+factor 1 and offset 0 at the dropped positions (what `unwrap_wcs_to_fitswcs` does) gives the
+full-dimension step: on the full pixel vector — placeholder 0 at every dropped axis — it computes
+exactly what the wrapper computes on the kept coordinates, and leaves the placeholders at 0. -/
+theorem fillKept_mulAdd (d : List Bool) (q f o : List Rat)
+    (hq : q.length = nKept d) (hf : f.length = nKept d) (ho : o.length = nKept d) :
+    fillKept 0 d (mulAdd q f o) = mulAdd (fillKept 0 d q) (fillKept 1 d f) (fillKept 0 d o) := by
+  induction d generalizing q f o with
+  | nil => simp [fillKept, mulAdd]
+  | cons b ds ih =>
+    cases b with
+    | true =>
+      have h1 : nKept (true :: ds) = nKept ds := by simp [nKept]
+      rw [h1] at hq hf ho
+      simp only [fillKept, mulAdd]
+      rw [ih q f o hq hf ho]
+      congr 1
+      grind
+    | false =>
+      have h1 : nKept (false :: ds) = nKept ds + 1 := by simp [nKept]
+      rw [h1] at hq hf ho
+      cases q with
+      | nil => simp at hq
+      | cons q0 qs =>
+        cases f with
+        | nil => simp at hf
+        | cons f0 fs =>
+          cases o with
+          | nil => simp at ho
+          | cons o0 os =>
+            simp only [fillKept, mulAdd]
+            rw [ih qs fs os (by simpa using hq) (by simpa using hf) (by simpa using ho)]
+
+/-- the expanded step is a legitimate full-dimension step (non-zero factors, right lengths) -/
+theorem fillKept_step_ok (d : List Bool) (f o : List Rat) (hf : f.length = nKept d) (_ho : o.length = nKept d)
+    (hnz : ∀ x ∈ f, x ≠ 0) :
+    (Step.mk (fillKept 1 d f) (fillKept 0 d o)).OK d.length := by
+  have hlen : ∀ (α : Type) (dflt : α) (d : List Bool) (v : List α), (fillKept dflt d v).length = d.length := by
+    intro α dflt d
+    induction d with
+    | nil => intro v; rfl
+    | cons b ds ih =>
+      intro v
+      cases b with
+      | true => simp [fillKept, ih]
+      | false => cases v <;> simp [fillKept, ih]
+  refine ⟨hlen _ _ _ _, hlen _ _ _ _, ?_⟩
+  have gen : ∀ (d : List Bool) (f : List Rat), f.length = nKept d → (∀ x ∈ f, x ≠ 0) →
+      ∀ x ∈ fillKept (1 : Rat) d f, x ≠ 0 := by
+    intro d
+    induction d with
+    | nil => intro f _ _ x hx; simp [fillKept] at hx
+    | cons b ds ih =>
+      intro f hf hnz x hx
+      cases b with
+      | true =>
+        simp only [fillKept, List.mem_cons] at hx
+        rcases hx with rfl | hx
+        · decide +kernel
+        · exact ih f (by simpa [nKept] using hf) hnz x hx
+      | false =>
+        cases f with
+        | nil => simp [nKept] at hf
+        | cons f0 fs =>
+          simp only [fillKept, List.mem_cons] at hx
+          rcases hx with rfl | hx
+          · exact hnz _ (List.mem_cons_self ..)
+          · exact ih fs (by simpa [nKept] using hf) (fun y hy => hnz y (List.mem_cons_of_mem _ hy)) x hx
+  exact gen d f hf hnz
+
 end Ndcube.C15
